@@ -3,10 +3,12 @@
 package req
 
 import (
+	"context"
 	"crypto/tls"
 	"fmt"
 	"io"
 	"log"
+	"net"
 	"net/http"
 	"net/http/httptest"
 	"net/url"
@@ -74,7 +76,7 @@ func TestVerif_C09_racestress(t *testing.T) {
 // they run only when the regenerated lock-set facts show them guarded (patches applied).
 func TestVerif_C09_racefocus(t *testing.T) {
 	s := verifh.New(t, "C09", "racefocus",
-		"focused concurrent hammering: (a) 8 goroutines x SetAltSvc/GetAltSvc on 4 keys incl. expiring entries; (b) 6 goroutines x handleAltSvc/checkAltSvc on 3 authorities with a live HTTP/3 alternative; (c) 8 request goroutines on HTTP/1.1+HTTP/2(+HTTP/3) x Client.Clone x Transport.Clone x CloseIdleConnections loops; oracle: no panic, every Get returns nil or the entry of its own key, every response echoes its own tag; under -race (thorough) any data-race report fails the run; (a),(b) gated by the lock-set facts")
+		"focused concurrent hammering: (a) 8 goroutines x SetAltSvc/GetAltSvc on 4 keys incl. expiring entries; (b) 6 goroutines x handleAltSvc/checkAltSvc on 3 authorities with a live HTTP/3 alternative; (d) round 7: 6 goroutines on HTTP/1.1 connections whose Write returns 1 ms late (writeLoop reports after the response was processed): GETs with and without response body x POSTs whose body tail is held back and which the origin answers 401 at once on a kept-alive connection, the tail released 2 ms after the caller is done — every call succeeds and echoes its own tag, under -race no report; (c) 8 request goroutines on HTTP/1.1+HTTP/2(+HTTP/3) x Client.Clone x Transport.Clone x CloseIdleConnections loops; oracle: no panic, every Get returns nil or the entry of its own key, every response echoes its own tag; under -race (thorough) any data-race report fails the run; (a),(b) gated by the lock-set facts")
 	iters := verifh.N(300, 4000)
 	jarOK := c09ForceKnownRacy() || c09FieldGuarded(t, "AltSvcJar.entries")
 	pendOK := c09ForceKnownRacy() || c09FieldGuarded(t, "Transport.pendingAltSvcs")
@@ -289,6 +291,77 @@ func TestVerif_C09_racefocus(t *testing.T) {
 			fmt.Sprintf("Clone x CloseIdleConnections x requests: %d answered, %d failed (closed while selected)", done.Load(), failed.Load()),
 			fmt.Sprintf("%d responses did not echo their tag; %d answered", bad.Load(), done.Load()))
 		s.Count("clone-close-hammer")
+	}
+	// (d) round 7: connections whose writer reports late x uploads answered early x concurrent callers
+	{
+		var bad, done, failed, early atomic.Int32
+		txt, panicked := verifh.Safely(func() {
+			cl := newClient(false)
+			cl.SetDial(func(ctx context.Context, network, addr string) (net.Conn, error) {
+				var d net.Dialer
+				c, err := d.DialContext(ctx, network, addr)
+				if err != nil {
+					return nil, err
+				}
+				return &c09LagConn{Conn: c, lag: time.Millisecond}, nil
+			})
+			tr := cl.GetTransport()
+			tr.MaxIdleConnsPerHost = 4
+			var wg sync.WaitGroup
+			n := 4 + iters/150
+			for g := 0; g < 6; g++ {
+				wg.Add(1)
+				go func(g int) {
+					defer wg.Done()
+					for i := 0; i < n; i++ {
+						tag := 3000000 + g*100000 + i
+						if g < 3 && i%2 == 1 {
+							// an upload whose tail is held back; the origin answers 401 at once (keep-alive)
+							up := c09Pattern(tag, 400, "q")
+							held := &c09HeldBody{first: up[:100], rest: up[100:], release: make(chan struct{})}
+							hr, _ := http.NewRequest("POST", "http://"+h1o.addr()+"/u", held)
+							hr.ContentLength = int64(len(up))
+							hr.Header.Set("X-Tag", strconv.Itoa(tag))
+							hr.Header.Set("X-Plan", c09Plan{expect: 2, status: 401}.String())
+							resp, err := tr.RoundTrip(hr)
+							if err != nil {
+								held.let()
+								failed.Add(1)
+								continue
+							}
+							io.Copy(io.Discard, resp.Body)
+							resp.Body.Close()
+							time.Sleep(2 * time.Millisecond) // the others get their turn while the tail is still held
+							held.let()
+							early.Add(1)
+							if resp.StatusCode != 401 || resp.Header.Get("X-Tag") != strconv.Itoa(tag) {
+								bad.Add(1)
+							}
+							continue
+						}
+						size := (i % 2) * 200
+						resp, err := cl.R().SetHeader("X-Tag", strconv.Itoa(tag)).SetHeader("X-Plan", c09Plan{size: size}.String()).Get("http://" + h1o.addr() + "/a")
+						if err != nil {
+							failed.Add(1)
+							continue
+						}
+						done.Add(1)
+						if resp.Header.Get("X-Tag") != strconv.Itoa(tag) || string(resp.Bytes()) != string(c09Pattern(tag, size, "r")) {
+							bad.Add(1)
+						}
+					}
+				}(g)
+			}
+			wg.Wait()
+			tr.CloseIdleConnections()
+		})
+		if panicked {
+			s.Crash("late-writer", "late-reporting writers / early-answered uploads / concurrent GETs", txt, "")
+		}
+		s.Observe("late-writer", bad.Load() == 0 && failed.Load() == 0 && done.Load() > 0 && early.Load() > 0, "", true,
+			fmt.Sprintf("late-reporting writers x early-answered held uploads x concurrent GETs: %d GETs answered, %d uploads answered early, %d failed", done.Load(), early.Load(), failed.Load()),
+			fmt.Sprintf("%d responses did not echo their tag / status; %d calls failed (none should: nothing closes a connection in use here)", bad.Load(), failed.Load()))
+		s.Count("late-writer-hammer")
 	}
 	if c09RaceEnabled {
 		s.Count("race-detector-on")
